@@ -19,8 +19,8 @@ func vh_fast_retransmit() {
 	head := s.writeList.Front()
 	vassume(head != nil && head.data.Size() > 0)
 	s.dupAckCount = vnChoice("dupacks", 3)
-	s.fr.active = false
-	s.fr.last = s.sndUna - 1
+	// fr (recovery state) is as newSender left it: not active, recover point just below sndUna
+	vassert(!s.fr.active, "a new sender is not in recovery")
 	headData := append([]byte{}, head.data.ToView()...)
 	seg := newSegmentFromView(&c.e.route, c.e.id, buffer.View{})
 	seg.sequenceNumber = c.e.rcv.rcvNxt
@@ -81,6 +81,7 @@ func vh_timer() {
 	t.enable(d)
 	t1 := time.Now()
 	vassert(t.enabled(), "enable enables")
+	vassert(!t.target.Before(t.runtimeTarget), "the runtime timer is due no later than the target")
 	vassert(!t.target.Before(t0.Add(d)) && !t.target.After(t1.Add(d)), "enable(d) sets the target d after now")
 	switch vnChoice("then", 3) {
 	case 0:
@@ -110,11 +111,12 @@ func vh_timer() {
 		}
 		vreach("reenabled")
 	case 2:
-		// re-arming with a later target while enabled
+		// re-arming with an earlier or later target while enabled
 		d2 := time.Duration(vnU64("d2"))
 		vassume(d2 > 0 && d2 < 1<<50)
 		t2 := time.Now()
 		t.enable(d2)
+		vassert(!t.target.Before(t.runtimeTarget), "the runtime timer is always due no later than the target (a shortened timeout re-arms it)")
 		if t.checkExpiration() {
 			vassert(!time.Now().Before(t2.Add(d2)), "after re-enable expiry is reported only after the new target")
 		}
@@ -234,4 +236,33 @@ func vh_cwnd_gate() {
 	s.sendData()
 	vassert(s.outstanding <= s.sndCwnd, "segments in flight never exceed the congestion window")
 	vreach("gate")
+}
+
+// O1b: a partial ACK during fast recovery retransmits the new earliest unacknowledged segment
+func vh_partial_ack_recovery() {
+	vclockFreeze()
+	c := vhEP(1<<20, 1<<20)
+	s := c.vhSender()
+	first := s.writeList.Front()
+	vassume(first != nil && first.Next() != nil && first.data.Size() > 0 && first.Next().data.Size() > 0)
+	second := first.Next()
+	vassume(s.sndNxt == s.sndNxtList) // both segments are in flight
+	// in fast recovery since the loss of the first segment
+	s.fr.active = true
+	s.fr.first = s.sndUna
+	s.fr.last = s.sndNxt - 1
+	s.fr.maxCwnd = s.sndCwnd + s.outstanding
+	ack := second.sequenceNumber // acknowledges exactly the first segment: a partial ACK
+	want := append([]byte{}, second.data.ToView()...)
+	seg := newSegmentFromView(&c.e.route, c.e.id, buffer.View{})
+	seg.sequenceNumber = c.e.rcv.rcvNxt
+	seg.ackNumber = ack
+	seg.flags = flagAck
+	seg.window = s.sndWnd
+	s.handleRcvdSegment(seg)
+	vassert(s.sndUna == ack, "the partial ACK advances sndUna")
+	vassert(len(c.net.Sent) >= 1, "a partial ACK in recovery retransmits at once")
+	d := vhDecode(c.net.Sent[0])
+	vassert(seqnum.Value(d.seq) == ack && len(d.payload) == len(want) && vhConsistent(ack, d.payload), "the retransmitted segment is the new earliest unacknowledged one, not the one just acknowledged")
+	vreach("partial-ack")
 }
